@@ -45,6 +45,10 @@ def gen_ir(r, fmt):
         elif k < 0.53:
             p["typ"] = r.choice(["float", "Optional[float]"])
             p["default"] = r.choice([1e+20, 2.5e+16, 1e-10, 123456789.125])  # floats whose repr uses exponent notation / many digits
+        elif k < 0.58 and fmt not in ("json_schema",) and not fmt.startswith("sqlalchemy"):
+            # container types without a default (dict / Optional[dict] / nested generics)
+            p["typ"] = r.choice(["dict", "Optional[dict]", "Optional[List[int]]", "Dict[str, int]", "Tuple[int, str]"])
+            p.pop("default", None)
     if r.random() < 0.3:
         ir["doc"] = r.choice(["Summary line.\n\nLonger description\nover two lines.", "  Indented summary", "Summary"])
     # descriptions that span several lines (a line break inside a parameter's or the return's description is legal input)
@@ -139,6 +143,8 @@ def compare(chk, case, views):
                         ta, tb = pa[f] or "", pb[f] or ""
                         if ta == "Optional[%s]" % tb or tb == "Optional[%s]" % ta:
                             sig["optional_toggle"] = True
+                    if ent == "param" and ir["params"].get(name, {}).get("typ") in ("dict", "Optional[dict]", "Optional[List[int]]", "Dict[str, int]", "Tuple[int, str]"):
+                        sig["input_typ"] = ir["params"][name]["typ"]  # root-cause marker: container types take special paths (type=loads, required, None default)
                     chk.failure(sig, "%s/%s round %d -> %d: %s.%s %r -> %r" % (fmt, style, k + 1, k + 2, name, f, pa[f], pb[f]), rp)
     return True
 
